@@ -28,7 +28,7 @@ CONSTANTS
     NSet, TSet, \* group sizes and thresholds tried (every pair with t <= n)
     Q,          \* prime modulus, Q > MaxN + 1
     Periods,    \* values of params.creation_period tried
-    PolyMode    \* which polynomials a dealer may pick: "all" | "few" | "one"
+    PolyMode    \* which polynomials a dealer may pick: "all" | "mixed" (dealer 1 all, others two) | "few" | "one"
 
 Mem  == 1..MaxN
 Zq   == 0..(Q - 1)
@@ -75,8 +75,15 @@ RECURSIVE Pow(_, _)
 Pow(x, k) == IF k = 0 THEN 1 ELSE (x * Pow(x, k - 1)) % Q
 InvQ(a) == CHOOSE x \in 1..(Q - 1) : (a * x) % Q = 1
 
-\* value at x of the polynomial with coefficient sequence p (p[1] is the constant term); <<>> is the zero polynomial
-Eval(p, x) == SumFn([k \in 1..Len(p) |-> p[k] * Pow(x, k - 1)], 1..Len(p)) % Q
+\* sum of f[1..k] (member-indexed sums; much cheaper for TLC than folding over a set)
+RECURSIVE SumTo(_, _)
+SumTo(f, k) == IF k = 0 THEN 0 ELSE f[k] + SumTo(f, k - 1)
+
+\* value at x of the polynomial with coefficient sequence p (p[1] is the constant term), Horner's rule as in
+\* pkg/tss solveScalarPolynomial; <<>> is the zero polynomial
+RECURSIVE Horner(_, _, _)
+Horner(p, x, k) == IF k > Len(p) THEN 0 ELSE (p[k] + x * Horner(p, x, k + 1)) % Q
+Eval(p, x) == Horner(p, x, 1)
 
 \* Lagrange coefficient at 0 of point j within the set S (pkg/tss ComputeLagrangeCoefficient)
 Lambda(j, S) == ProdFn([k \in S \ {j} |-> (k * InvQ((k - j) % Q)) % Q], S \ {j})
@@ -85,16 +92,17 @@ Lambda(j, S) == ProdFn([k \in S \ {j} |-> (k * InvQ((k - j) % Q)) % Q], S \ {j})
 (* derived quantities *)
 
 Dealt(i)    == poly[i] # <<>>
-SumA0       == SumFn([i \in Members |-> IF Dealt(i) THEN poly[i][1] ELSE 0], Members) % Q     \* the group secret
-TruePub(j)  == SumFn([i \in Members |-> Eval(poly[i], j)], Members) % Q                        \* Sum_i f_i(j)
+SumA0       == SumTo([i \in Members |-> IF Dealt(i) THEN poly[i][1] ELSE 0], n) % Q     \* the group secret
+TruePub(j)  == SumTo([i \in Members |-> Eval(poly[i], j)], n) % Q                        \* Sum_i f_i(j)
 Share(i, j) == IF i = j THEN Eval(poly[i], i) ELSE sh[i][j]                                      \* what j holds from i
-SumShares(j) == SumFn([i \in Members |-> Share(i, j)], Members) % Q                            \* j's private key
+SumShares(j) == SumTo([i \in Members |-> Share(i, j)], n) % Q                            \* j's private key
 ShareBad(r, c) == r \in Members /\ c \in Members /\ r # c /\ sh[r][c] # Nil /\ sh[r][c] # Eval(poly[r], c)
 BadDealers(c) == {r \in Members : ShareBad(r, c)}
 Count(f)    == Cardinality({i \in Members : f[i]})
 
 PolyChoice(m) ==
     IF PolyMode = "all" THEN [1..t -> Zq]
+    ELSE IF PolyMode = "mixed" THEN (IF m = 1 THEN [1..t -> Zq] ELSE {[k \in 1..t |-> (m + k) % Q], [k \in 1..t |-> (2 * m + 3 * k) % Q]})
     ELSE IF PolyMode = "few" THEN {[k \in 1..t |-> (m + k) % Q], [k \in 1..t |-> (2 * m + 3 * k) % Q], [k \in 1..t |-> 0]}
     ELSE {[k \in 1..t |-> (m + k) % Q]}
 
@@ -131,12 +139,14 @@ Rejected ==
 (***************************************************************************)
 (* MsgSubmitDKGRound1.  Shapes: "ok" (what GenerateRound1Info makes),      *)
 (* "wrongLen" (number of commitments # t), "badA0Sig", "badOneTimeSig",    *)
-(* "sigOtherId" / "sigOtherCtx" (proofs of possession made for another     *)
-(* member id / another DKG context), "wrongMemberId" (sender is a member   *)
-(* but claims another member's id), "nonMember".  A duplicate or out-of-   *)
-(* round submission is shape "ok" in a state that refuses it.              *)
+(* "a0OtherId"/"otOtherId"/"a0OtherCtx"/"otOtherCtx" (the A0 / one-time    *)
+(* proof of possession made for another member id / another DKG context),  *)
+(* "wrongMemberId" (sender is a member but claims another member's id),    *)
+(* "nonMember".  A duplicate or out-of-round submission is shape "ok" in a *)
+(* state that refuses it.                                                  *)
 (***************************************************************************)
-R1Shapes == {"ok", "wrongLen", "badA0Sig", "badOneTimeSig", "sigOtherId", "sigOtherCtx", "wrongMemberId", "nonMember"}
+R1Shapes == {"ok", "wrongLen", "badA0Sig", "badOneTimeSig", "a0OtherId", "otOtherId", "a0OtherCtx", "otOtherCtx",
+             "wrongMemberId", "nonMember"}
 
 R1Acceptable(m, shape) == status = "R1" /\ m \in Members /\ shape = "ok" /\ ~r1[m]
 
@@ -281,19 +291,17 @@ CompArgs(c) ==
     (IF BadDealers(c) # {} THEN {HonestList(c)} ELSE {})
     \cup {<<[r |-> r, kind |-> k]>> : r \in (1..(n + 1)) \ {c}, k \in Kinds}
 
-\* (a refused input has one successor whatever its remaining arguments are, so those are not enumerated)
+\* Accepted inputs are enumerated one by one.  Every refused input - whatever its sender, shape and
+\* remaining arguments - has the same single successor (Rejected), and in every state some input is
+\* refused (a stranger's, say), so the refused inputs contribute exactly one disjunct.
 Next ==
-    \/ \E m \in Mem, shape \in R1Shapes :
-          IF R1Acceptable(m, shape) THEN \E p \in PolyChoice(m) : SubmitR1(m, shape, p) ELSE SubmitR1(m, shape, <<>>)
+    \/ \E m \in Mem, shape \in R1Shapes : R1Acceptable(m, shape) /\ \E p \in PolyChoice(m) : SubmitR1(m, shape, p)
     \/ \E m \in Mem, shape \in R2Shapes :
-          IF R2Acceptable(m, shape)
-          THEN \E d \in [Mem -> Deltas] : (\A j \in Mem : (j = m \/ j > n) => d[j] = 0) /\ SubmitR2(m, shape, d)
-          ELSE SubmitR2(m, shape, ZeroD)
-    \/ \E m \in Mem, shape \in ConfShapes : Confirm(m, shape)
-    \/ \E c \in Mem, shape \in CompShapes :
-          IF CompAcceptable(c, shape, <<[r |-> 0, kind |-> "gen"]>>)
-          THEN \E cs \in CompArgs(c) : Complain(c, shape, cs)
-          ELSE Complain(c, shape, <<>>)
+          /\ R2Acceptable(m, shape)
+          /\ \E d \in [Mem -> Deltas] : (\A j \in Mem : (j = m \/ j > n) => d[j] = 0) /\ SubmitR2(m, shape, d)
+    \/ \E m \in Mem, shape \in ConfShapes : ConfAcceptable(m, shape) /\ Confirm(m, shape)
+    \/ \E c \in Mem, shape \in CompShapes : \E cs \in CompArgs(c) : CompAcceptable(c, shape, cs) /\ Complain(c, shape, cs)
+    \/ Rejected
     \/ EndBlock
 
 Spec == Init /\ [][Next]_vars
@@ -310,7 +318,7 @@ TypeOK ==
     /\ out.ok \in BOOLEAN
 
 \* the bookkeeping of round 1: accumulated commitment k = sum of the k-th commitments stored so far
-AccSound == ~expDone => \A k \in 1..t : acc[k] = SumFn([i \in Members |-> IF Dealt(i) THEN poly[i][k] ELSE 0], Members) % Q
+AccSound == ~expDone => \A k \in 1..t : acc[k] = SumTo([i \in Members |-> IF Dealt(i) THEN poly[i][k] ELSE 0], n) % Q
 
 \* rounds advance exactly when everybody has submitted
 RoundShape ==
